@@ -46,6 +46,7 @@ class World:
         self.status = 0  # status byte the target reports for the next command
         self.sense = None  # sense bytes it sends with CHECK CONDITION
         self.close_failure = False  # bool | symbolic: closing a handle raises
+        self.resid = None  # return value of sgio.execute for GOOD status (None, or the residual byte count of the transfer)
         self.open_failure = False  # bool | symbolic: open() of an existing node raises (EACCES, EBUSY, ...)
         self.havoc = None  # callable(datain) -> None: the device writes into the data-in buffer
         self.handles = []
@@ -109,7 +110,7 @@ class World:
         if self.havoc is not None:
             self.havoc(datain)
         if self.status == 0x00:
-            return None
+            return self.resid  # what the binding returns for a completed command is not specified: None, or a residual count
         if self.status == 0x02:
             raise sgio.CheckConditionError(self.sense)
         raise sgio.UnspecifiedError("status", self.status)
